@@ -100,6 +100,8 @@ pub struct Interp<'tcx> {
     /// callee name patterns whose integer results are tracked as path facts
     pub track_ret: Vec<String>,
     pub fact_gen: u64,
+    /// key of the fact stashed as `$ret` by the latest return
+    pub ret_fact_key: Option<Rc<str>>,
     pub lin_tier: bool,
     pub prod_atoms: HashMap<(AtomId, AtomId), AtomId>,
     pub atomize: Vec<String>,
@@ -175,6 +177,7 @@ impl<'tcx> Interp<'tcx> {
             loopcut: Vec::new(),
             track_ret: Vec::new(),
             fact_gen: 0,
+            ret_fact_key: None,
             lin_tier: false,
             prod_atoms: HashMap::new(),
             atomize: Vec::new(),
